@@ -1,6 +1,12 @@
 /* common part of every btcp-unit harness: prelude, the REAL libxcm/tp/tcp/xcm_tp_btcp.c (whole), env, contracts.
  * XB_DNS_ATTR: additionally the real libxcm/tp/common/dns_attr.c (setter jobs). */
 #include "prelude.h"
+#ifdef XB_STRLEN_GHOST
+/* job btcp.set_local_addr@accept: strlen(3) of the TU goes through xb_strlen (env/btcp_env.h), the textbook loop, which
+ * records its result in the ghost xb_strlen_ret -- a contract cannot say "the first NUL" without a quantifier */
+size_t xb_strlen(const char *s);
+#define strlen(s) xb_strlen(s)
+#endif
 #include "xcm_tp_btcp.c"
 #ifdef XB_DNS_ATTR
 #include "dns_attr.c"
